@@ -123,6 +123,27 @@ func (t *TURef) UnmarshalText(b []byte) error {
 	return nil
 }
 
+// Two function-local element types, both named Node (same package path, same name, different types): one without any
+// reference inside, one made of references.
+func localNodePlainLeaf() *Leaf {
+	type Node struct{ X, Y int }
+	return &Leaf{Name: "[]Node(local,no-refs)", Type: reflect.TypeOf([]Node{}), Caps: CapRef,
+		Gen: func(r *fw.Rand, uniq int) reflect.Value { return rv([]Node{{X: uniq, Y: 1}, {X: -uniq}}) }}
+}
+
+func localNodeRefsLeaf() *Leaf {
+	type Node struct {
+		M map[string]int
+		S []int
+		P *int
+	}
+	return &Leaf{Name: "[]Node(local,refs)", Type: reflect.TypeOf([]Node{}), Caps: CapRef,
+		Gen: func(r *fw.Rand, uniq int) reflect.Value {
+			x := uniq
+			return rv([]Node{{M: map[string]int{"m": uniq}, S: []int{uniq, 2}, P: &x}, {S: make([]int, 1, 4)}})
+		}}
+}
+
 // Capability flags of a leaf kind.
 const (
 	CapEnv   = 1 << iota // string-castable (environment source)
@@ -612,6 +633,7 @@ func buildLeaves() []*Leaf {
 			Gen: func(r *fw.Rand, uniq int) reflect.Value { return rv(&TU{A: uniq, B: 1}) }},
 		{Name: "*Level", Type: reflect.TypeOf((*Level)(nil)), Caps: CapRef | CapNamed,
 			Gen: func(r *fw.Rand, uniq int) reflect.Value { x := Level(uniq % 200); return rv(&x) }},
+		localNodePlainLeaf(), localNodeRefsLeaf(),
 	}
 	return ls
 }
